@@ -219,24 +219,44 @@ class C04(runner.Check):
     prop = 'C04'
     level = 'proof'
     theorems = ('TM.C04_step', 'TM.C04_history', 'TM.C04_state_of_failure', 'TM.C04_finalize_never_replaces',
-                'TM.C04_no_later_stage')
+                'TM.C04_no_later_stage',
+                # hierarchical engine (Props/C04N.lean)
+                'TM.C04N_step', 'TM.C04N_step_noCmds', 'TM.C04N_history', 'TM.C04N_monitor_accepts_model',
+                'TM.C04N_no_later_stage', 'TM.C04N_finalize_never_replaces', 'TM.C04N_outcome',
+                'TM.C04N_state_of_failure', 'TM.C04N_state_of_success', 'TM.C04N_conf_frozen', 'TM.C04N_conf_reach',
+                'TM.C04N_usable_afterwards', 'TM.C04N_sameMachine_step')
     manifest = dict(
         level='proof', design='DESIGN.md 4/C04',
-        text="Lean 4 theorems C04_step / C04_history: for every flat configuration, every history and EVERY script without re-entrant commands (any callback, condition, on_exception handler or finalize callback may raise any exception at any invocation) the engine model's trace is accepted by the containment acceptor (segment cut after the first raising call, handlers iff registered, finalize always with its own exception swallowed, outcome raised/normal, state = source or destination by failing stage) and the machine is left idle. Tied to /repo by a crash sweep over every callback position of recorded traces: on the eight synchronous classes (flat configurations) by model equality, the same compiled acceptor on implementation traces and a survivor-vs-fresh continuation differential (on another thread for locked classes); on nested/parallel configurations and the async classes (HierarchicalMachine, LockedHierarchicalMachine, AsyncMachine, HierarchicalAsyncMachine) by a containment oracle stating the clauses directly (nothing of a later stage, finalize exactly once, handlers iff registered, outcome, state frozen from the failing stage on, source state at or before the exit callbacks) plus the same survivor-vs-fresh differential; exception kinds include Exception, BaseException and builtin types (KeyError, IndexError, OSError, ...).",
-        note="Trusted: Lean kernel, Model/Core.lean tied by trace equality, acceptor Model/Spec/C04.lean, harness recorders. Partial: the hierarchical and async engines have no Lean model in this check (Python oracle + differential, sampling); lock release on real threads is decided by the thread probe here and by C06; re-entrant commands combined with failures are covered by C05's theorem (queue discarded).",
+        text="Lean 4 theorems C04_step / C04_history: for every flat configuration, every history and EVERY script without re-entrant commands (any callback, condition, on_exception handler or finalize callback may raise any exception at any invocation) the engine model's trace is accepted by the containment acceptor (segment cut after the first raising call, handlers iff registered, finalize always with its own exception swallowed, outcome raised/normal, state = source or destination by failing stage) and the machine is left idle. HIERARCHICAL engine (Props/C04N.lean, model Model/Nested*.lean written after nesting.py, now with the on_final stage): C04N_step / C04N_history / C04N_monitor_accepts_model - for every state tree (compound, parallel, final flags), global and local transitions, queued or not, EVERY script (any callback raises anything anywhere, callbacks may trigger further events: immediately on unqueued machines, through the queue on queued ones) and every history the trace is accepted by the nested containment acceptor Model/Spec/C04N.lean (an event = several transitions, one per region / scope, each a sequence of stages incl. the exit chain and enter chain of every state and on_final lists; after a raise inside transition k no later stage of k and no later transition runs; handlers iff registered; finalize exactly once, never replacing the outcome; every callback is shown the tracked configuration, which moves only at _update_model); C04N_state_of_failure (trace of a failed transition = pre-update callbacks ++ post-update callbacks; configuration unchanged iff nothing after _update_model ran, else the resolved destination), C04N_conf_reach, C04N_conf_frozen; C04N_usable_afterwards / C04N_sameMachine_step (after ANY trigger call on an idle machine the queue is empty and the state is the same machine as a fresh one placed in its configuration; that relation is preserved by every call with identical outcomes and traces, so every further history runs identically). Tied to /repo by crash sweeps over every callback position of recorded traces: on the eight synchronous classes (flat configurations) by model equality, the compiled acceptor on implementation traces and a survivor-vs-fresh continuation differential; stream nested-model: generated hierarchical machines (parallel / parallel-in-parallel, local transitions, final states, queued and unqueued, re-entrant triggers) on HierarchicalMachine + the three other synchronous hierarchical classes by trace equality with the Lean engine model, the compiled nested acceptor C04N.checkTrace on the implementation's traces and the survivor-vs-fresh differential; the async classes and the older nested oracle stream by a containment oracle stating the clauses directly (plus, for its hierarchical synchronous setups, the same compiled nested acceptor per model); exception kinds include Exception, BaseException and builtin types (KeyError, IndexError, OSError, ...).",
+        note="Trusted: Lean kernel, Model/Core.lean and Model/Tree+Nested+NestedDispatch.lean tied by trace equality, acceptors Model/Spec/C04.lean and Model/Spec/C04N.lean, harness recorders. The acceptors compute which transitions are attempted with the engine model's pure functions (candidates, resolve_order, _resolve_transition, _final_check) and read callback outcomes off the trace. Partial: the async engines have no Lean model in this check (Python oracle + differential, sampling); C04N_state_of_failure / conf_reach / conf_frozen assume callbacks that do not trigger events (a re-entrant event moves the configuration itself); NestedState._scope and the machine's scope stack are not part of the engine model - the stream compares re-entrant triggers from enter/exit callbacks and from callbacks inside nested scopes strictly, which is how the two defects fixed by 4b06f60 / 84867c8 were found (regression cases in corpus/C04); lock release on real threads is decided by the thread probe here and by C06.",
         technique="Lean 4 proof (structural simulation, all raising scripts) + crash-position sweep differential + verified trace monitor")
     rule = ('base = random flat configuration x history of 1-4 triggers (no failure); variants = every (quick: up to 8 '
             'sampled) callback position of the clean trace as the crash point x {Exception, BaseException} x {with, '
             'without on_exception handlers} (+ second fault in handler / finalize with p=0.2) x machine classes; '
-            'non-trivial/distinct = distinct (variant encoding, class) — every variant raises')
+            'stream nested-model: base = random hierarchical machine (<= 10 states, depth <= 3, parallel states, local '
+            'transitions, final flags + on_final lists, queued p=0.35, callbacks that trigger events) x history of 1-4 '
+            'triggers, variants = every (quick: up to 5 sampled, enter/exit/on_final/after preferred) callback position '
+            'of the clean HierarchicalMachine trace as the crash point, same exception kinds / handlers / second faults, '
+            'run on HierarchicalMachine and one (thorough: always) of the three other synchronous hierarchical classes, '
+            'followed by a 3-event continuation; non-trivial/distinct = distinct (variant encoding, class) — every '
+            'variant raises')
     trusted = ('hand-written model lean/Model/Core.lean tied to /repo by trace equality on every variant',
-               'acceptor lean/Model/Spec/C04.lean read as the containment clause',
-               'harness/flat.py recorders; survivor-vs-fresh differential implemented in harness/props/c04.py')
+               'hand-written model of nesting.py (lean/Model/Tree.lean, Nested.lean, NestedDispatch.lean) tied to /repo by '
+               'trace equality + state value after every call on every variant of stream nested-model',
+               'acceptors lean/Model/Spec/C04.lean and lean/Model/Spec/C04N.lean read as the containment clause',
+               'harness/flat.py and harness/nested.py recorders; survivor-vs-fresh differentials implemented in '
+               'harness/props/c04.py')
 
     def assumptions(self):
-        return ['theorems assume scripts without re-entrant API calls (C05 covers those) and registered states',
-                'the sweep covers the synchronous classes on flat configurations; nested scopes and async classes are '
-                'exercised by other checks (see manifest note)']
+        return ['flat theorems assume scripts without re-entrant API calls (C05 covers those) and registered states; the '
+                'hierarchical theorems C04N_step / C04N_history / C04N_usable_afterwards hold for every script, re-entrant '
+                'trigger commands included; C04N_state_of_failure / C04N_conf_reach / C04N_conf_frozen assume callbacks '
+                'that do not trigger events',
+                'hierarchical machines: one model, string states, no name collisions between levels in the generated '
+                'trees (Enum states and shared state objects are C02 / C18 business); the monitor runs the acceptor with '
+                'the bounds (queue items per call, nesting depth) of the model run of the same input',
+                'the async classes are judged by the Python containment oracle and the survivor-vs-fresh differential '
+                'only (no Lean model of the async engines in this check)']
 
     def explore(self, tier, seed):
         nch, per = (16, 14) if tier == "quick" else (64, 10)
@@ -579,3 +599,577 @@ def _replay(self, path):
 
 C04.explore = _explore
 C04.replay = _replay
+
+
+# =============================================================================================
+# stream `nested-model`: crash sweep on the hierarchical engine against its Lean model (C04N)
+# =============================================================================================
+# Generated hierarchical machines (compound / parallel / parallel-in-parallel configurations, global and local
+# transitions, final states with on_final lists, queued and unqueued, callbacks that trigger further events): the clean
+# run is recorded on HierarchicalMachine, then EVERY callback position of that trace (prepare_event, prepare, conditions,
+# unless, before, every on_exit / on_enter of the exit / enter chains, on_final, after, finalize_event; on_exception
+# handlers and finalize callbacks as second faults) is made the raise point — Exception / BaseException / builtin kinds,
+# with and without on_exception handlers.  Every variant is judged by
+#   * trace equality + state value after every call with the Lean model of nesting.py (`nested4` request),
+#   * the verified containment acceptor `C04N.checkTrace` on the implementation's trace (`c04n` request) — on
+#     HierarchicalMachine and on one of the other synchronous hierarchical classes (whose trace must equal HM's),
+#   * the survivor-vs-fresh differential (a continuation on the machine that survived vs a fresh machine placed in the
+#     same configuration).
+
+from .. import nested, nestedcheck  # noqa: E402
+
+NM_OTHERS = ['LockedHierarchicalMachine', 'HierarchicalGraphMachine', 'LockedHierarchicalGraphMachine']
+ONF = SLOT['on_final']
+
+
+def nm_knobs():
+    return nested.NKnobs(max_history=4, max_states=10, max_depth=3, p_cmds=0.06, p_unknown_event=0.04, p_queued=0.35,
+                         p_parallel=0.6, p_compound=0.8, max_roots=2, p_noinit=0.1, p_collide=0.0)
+
+
+def nm_decorate(d, rng):
+    """final flags, on_final lists (states and machine) and, on unqueued machines, callbacks that trigger events"""
+    nxt = [max(d.cb_slot) + 1 if d.cb_slot else 0]
+
+    def cb():
+        c = nxt[0]
+        nxt[0] += 1
+        d.cb_slot[c] = ONF
+        return c
+    for _p, n in d.walk():
+        leaf = not n['children']
+        n['final'] = rng.random() < (0.5 if leaf else 0.2)
+        n['on_final'] = [cb() for _ in range(rng.choice([0, 1, 1, 2]))]
+    d.on_final = [cb()] if rng.random() < 0.6 else []
+    if not d.queued and rng.random() < 0.35:
+        known = sorted(set([e for e, _ in d.events] + [e for _p, n in d.walk() for e, _ts in n['local']])) or [0]
+        cands = [c for c, sl in d.cb_slot.items() if sl not in (SLOT['conditions'], SLOT['unless'], FIN, EXC)]
+        chain = [c for c in cands if d.cb_slot[c] in (SLOT['on_enter'], SLOT['on_exit'])]
+        for _ in range(rng.choice([1, 1, 2])):
+            c = rng.choice(chain if chain and rng.random() < 0.5 else cands)
+            k = rng.randrange(2)
+            if (c, k) not in d.script:
+                d.script[(c, k)] = ([(flat.TRIGGER, 0, rng.choice(known))], ('ret', True))
+    return d
+
+
+def nm_gen(rng):
+    return nm_decorate(nested.gen_nested(rng, nm_knobs()), rng)
+
+
+def nm_variants(base, items, rng, all_positions):
+    calls = [(i, it) for i, it in enumerate(items) if it[0] == 'call']
+    seen, order = {}, {}
+    for i, it in calls:
+        order[i] = seen.get(it[2], 0)
+        seen[it[2]] = order[i] + 1
+    if not all_positions and len(calls) > 5:
+        # keep the rarer slots represented
+        rare = [c for c in calls if c[1][1] in (ONF, SLOT['on_exit'], SLOT['on_enter'], SLOT['after'])]
+        pick = rng.sample(rare, min(3, len(rare)))
+        rest = [c for c in calls if c not in pick]
+        calls = pick + rng.sample(rest, min(5 - len(pick), len(rest)))
+    for pos, it in calls:
+        cid, k = it[2], order[pos]
+        for handlers in (False, True):
+            if not all_positions and rng.random() < 0.3:
+                continue
+            d = nested.NDesc.from_json(base.to_json())
+            kind = 4 if rng.random() < 0.35 else 3
+            nn = rng.randrange(3)
+            if rng.random() < 0.2:
+                kind, nn = rng.choice([2, 6, 7, 8, 9, 10]), 0
+            cmds = d.script.get((cid, k), ((), None))[0]
+            d.script[(cid, k)] = (list(cmds), ('raise', kind, nn))
+            extra = None
+            if handlers:
+                hid = max(d.cb_slot) + 1
+                d.cb_slot[hid] = EXC
+                d.on_exception = [hid]
+                if rng.random() < 0.4:
+                    d.cb_slot[hid + 1] = EXC
+                    d.on_exception.append(hid + 1)
+                if rng.random() < 0.2:
+                    d.script[(hid, 0)] = ([], ('raise', 3, 2))
+                    extra = 'handler-raises'
+            if d.finalize and rng.random() < 0.2:
+                f = rng.choice(d.finalize)
+                for kk in range(8):
+                    d.script.setdefault((f, kk), ([], ('raise', 4 if rng.random() < 0.5 else 3, 1)))
+                extra = (extra + '+' if extra else '') + 'finalize-raises'
+            yield d, {'pos': pos, 'slot': common.SLOTS[it[1]], 'handlers': handlers,
+                      'exc': {3: 'User', 4: 'Base'}.get(kind, 'builtin-%d' % kind), 'extra': extra}
+
+
+def nm_parse(ans):
+    """`T <items> C <state values> Q <queue lengths>`"""
+    if ans in ('oof', 'noinit'):
+        return None
+    if not ans.startswith('T '):
+        raise common.MachineryError('driver answered %r' % ans[:200])
+    t, rest = ans[2:].split(' C ')
+    c, q = rest.split(' Q')
+    nums = [int(x) for x in t.split()]
+    items, pos = common.dec_items(nums)
+    if pos != len(nums):
+        raise common.MachineryError('trailing numbers in driver trace')
+    return items, nested.dec_svals([int(x) for x in c.split()]), [int(x) for x in q.split()]
+
+
+class NMRun(nested.NestedRun):
+    """NestedRun that notes (for the evidence only) when a callback triggers an event on an unqueued machine while
+    (a) the naming scope of some state is set (`NestedState._scope` non-empty: that state's scoped_enter / scoped_exit
+    is in progress) or (b) the machine is inside a nested scope (`prefix_path` non-empty: a callback of a locally
+    declared transition) — the two corners in which this stream found the defects fixed by 4b06f60 and 84867c8
+    (`NestedState._scope` and the scope stack are not part of the engine model; the comparison is strict everywhere)"""
+
+    def __init__(self, *a, **kw):
+        self.depth = 0
+        self.scope_live = []
+        self.scoped_reentry = 0
+        self.residue = []           # what a top-level call left behind: naming scopes, scope stack, queue content
+        nested.NestedRun.__init__(self, *a, **kw)
+
+    def _scoped_states(self):
+        out = []
+
+        def rec(states, pre):
+            for name, st in states.items():
+                if getattr(st, '_scope', None):
+                    out.append('_'.join(pre + [name]))
+                rec(st.states, pre + [name])
+        # `machine.states` is the dictionary of the scope the machine is in right now: start from the root scope
+        rec(self.machine._stack[0][1] if self.machine._stack else self.machine.states, [])
+        return out
+
+    def trigger(self, ev):
+        if self.depth > 0 and not self.d.queued:
+            live = self._scoped_states()
+            if live:
+                self.scope_live.append((self.next_tag, live))
+            if getattr(self.machine, 'prefix_path', None):
+                self.scoped_reentry += 1
+        self.depth += 1
+        try:
+            return nested.NestedRun.trigger(self, ev)
+        finally:
+            self.depth -= 1
+            if self.depth == 0:
+                self._check_residue()
+
+    def _check_residue(self):
+        """the machine is idle again: "nothing - scope, queue content, state names - is left behind" read directly"""
+        m = self.machine
+        if getattr(m, '_stack', None) or getattr(m, 'prefix_path', None):
+            self.residue.append(('scope-stack', repr(getattr(m, 'prefix_path', None))))
+        if len(getattr(m, '_transition_queue', ())):
+            self.residue.append(('queue-content', len(m._transition_queue)))
+
+        def rec(states):
+            for name, st in states.items():
+                if st.name != name:
+                    self.residue.append(('state-name', '%s is called %s' % (name, st.name)))
+                rec(st.states)
+        if not getattr(m, '_stack', None):
+            rec(m.states)
+
+
+def nm_run(d, cls, cont=None, place=None):
+    """(run, error): history of `d` (then `cont`) on class `cls`; `place` = (state value, counts, next tag) to start from"""
+    import signal
+    old = signal.signal(signal.SIGALRM, nested._on_alarm)
+    signal.alarm(30)
+    r = None
+    try:
+        r = NMRun(d, cls)
+        if place is not None:
+            stv, counts, tag = place
+            r.machine.set_state(stv, r.model)
+            r.counts = dict(counts)
+            r.next_tag = tag
+            r.states_after.append(r.state_value())
+        else:
+            r.run()
+        r.n0 = len(r.items)
+        for ev in cont or ():
+            try:
+                r.trigger(ev)
+            except BaseException as e:
+                if isinstance(e, (common.MachineryError, KeyboardInterrupt, nested.CaseTimeout)):
+                    raise
+            r.states_after.append(r.state_value())
+        return r, None
+    except nested.CaseTimeout:
+        return r, 'hang'
+    except common.MachineryError:
+        raise
+    except BaseException as e:
+        return None, '%s: %s' % (type(e).__name__, str(e)[:200])
+    finally:
+        signal.alarm(0)
+        signal.signal(signal.SIGALRM, old)
+
+
+def nm_requests(d, runs):
+    """driver requests for one variant: the model run over history + continuation, one monitor per recorded run"""
+    hist = list(d.history) + list(d.cont)
+    reqs = [('nested4', d.enc_cfg4() + d.enc_script() + nested._l(hist))]
+    ncmds = sum(len(v[0]) for v in d.script.values())
+    bounds = [(len(hist) + ncmds + 2) * 8, ncmds + 2]        # as `nested4Case` computes them
+    for r in runs:
+        reqs.append(('c04n', bounds + d.enc_cfg4() + nested.enc_sval(r.states_after[0]) + common.enc_items(r.items)))
+    return reqs
+
+
+def nm_judge(case, d, hm, err, other, oerr, fresh, ferr, answers):
+    out = []
+    info = case.get('info')
+
+    def fail(kind, what, details, sig=None, cls=None):
+        out.append(Failure(kind, what, dict(case, cls=cls) if cls else case, dict(details, crash=info), signature=sig))
+    if err or hm is None:
+        fail('monitor' if err == 'hang' else 'correspondence', 'nested-' + (err or 'no-run').split(':')[0], {'error': err},
+             sig='C04.nested.hang' if err == 'hang' else None)
+        return out
+    if hm.bad:
+        fail('monitor', 'nested-recorder:' + hm.bad[0][0], {'bad': hm.bad[:4]}, sig='C04.nested.' + hm.bad[0][0])
+    for r, c in ((hm, None), (other, case.get('cls'))):
+        if r is not None and r.residue:
+            fail('monitor', 'nested-left-behind:' + r.residue[0][0], {'class': c or 'HierarchicalMachine', 'left_behind': r.residue[:4],
+                                                                     'impl_trace': [common.show_item(i) for i in r.items[:80]]},
+                 sig='C04.nested.left-behind', cls=c)
+    m = nm_parse(answers[0])
+    if m is not None:
+        items, vals, _q = m
+        if items != hm.items or vals != hm.states_after:
+            k = next((i for i, (x, y) in enumerate(zip(items, hm.items)) if x != y), min(len(items), len(hm.items)))
+            fail('correspondence', 'nested_trace_eq', {
+                'first_difference_at': k, 'model': [common.show_item(i) for i in items[max(0, k - 4):k + 3]],
+                'impl': [common.show_item(i) for i in hm.items[max(0, k - 4):k + 3]],
+                'model_states': vals, 'impl_states': hm.states_after})
+    elif answers[0] == 'noinit':
+        fail('correspondence', 'nested_model_noinit', {})
+    if answers[1] != 'ok':
+        if not answers[1].startswith('reject'):
+            raise common.MachineryError('monitor answered %r' % answers[1][:200])
+        fail('monitor', 'nested-containment-monitor', {
+            'monitor': answers[1], 'class': 'HierarchicalMachine',
+            'impl_trace': [common.show_item(i) for i in hm.items[:120]], 'states': hm.states_after},
+            sig='C04.nested.monitor')
+    if other is not None or oerr:
+        cls = case['cls']
+        if oerr or other is None:
+            fail('monitor' if oerr == 'hang' else 'correspondence', 'nested-' + (oerr or 'no-run').split(':')[0] + ':' + cls,
+                 {'error': oerr}, sig='C04.nested.hang' if oerr == 'hang' else None, cls=cls)
+        else:
+            if other.items != hm.items or other.states_after != hm.states_after:
+                k = next((i for i, (x, y) in enumerate(zip(other.items, hm.items)) if x != y), min(len(other.items), len(hm.items)))
+                fail('correspondence', 'nested_class_differential:' + cls, {
+                    'first_difference_at': k, 'reference': [common.show_item(i) for i in hm.items[max(0, k - 4):k + 3]],
+                    'observed': [common.show_item(i) for i in other.items[max(0, k - 4):k + 3]]}, cls=cls)
+            if answers[2] != 'ok':
+                fail('monitor', 'nested-containment-monitor', {
+                    'monitor': answers[2], 'class': cls, 'impl_trace': [common.show_item(i) for i in other.items[:120]]},
+                    sig='C04.nested.monitor', cls=cls)
+    # survivor vs fresh
+    if ferr == 'hang':
+        fail('monitor', 'nested-fresh-hangs', {}, sig='C04.nested.hang')
+    elif ferr:
+        fail('monitor', 'nested-state-after-failure-not-usable', {'error': ferr, 'state': hm.states_after[len(d.history)]},
+             sig='C04.nested.state')
+    elif fresh is not None:
+        a, b = hm.items[hm.n0:], fresh.items
+        sa, sb = hm.states_after[len(d.history):], fresh.states_after
+        if a != b or sa != sb:
+            k = next((i for i, (x, y) in enumerate(zip(a, b)) if x != y), min(len(a), len(b)))
+            fail('monitor', 'nested-survivor-differs-from-fresh', {
+                'first_difference_at': k, 'survivor': [common.show_item(i) for i in a[max(0, k - 3):k + 4]],
+                'fresh': [common.show_item(i) for i in b[max(0, k - 3):k + 4]], 'survivor_states': sa, 'fresh_states': sb},
+                sig='C04.nested.survivor')
+    return out
+
+
+def nm_eval(cases):
+    """cases: list of dicts {'nm': True, 'desc', 'cont', 'cls', 'info'}; returns list of (failures, hm run)"""
+    prepared = []
+    reqs = []
+    for case in cases:
+        d = nested.NDesc.from_json(case['desc'])
+        d.cont = list(case['cont'])
+        hm, err = nm_run(d, 'HierarchicalMachine', cont=d.cont)
+        other, oerr = (None, None)
+        runs = []
+        fresh, ferr = None, None
+        if hm is not None and not err:
+            runs.append(hm)
+            if case.get('cls'):
+                other, oerr = nm_run(d, case['cls'], cont=d.cont)
+                if other is not None and not oerr:
+                    runs.append(other)
+            k = len(d.history)
+            # the machine is idle between calls: the fresh machine starts from the recorded state value
+            pre = nested.NestedRun(d, 'HierarchicalMachine')
+            pre.run()
+            fresh, ferr = nm_run(d, 'HierarchicalMachine', cont=d.cont,
+                                 place=(hm.states_after[k], pre.counts, pre.next_tag))
+        n = len(reqs)
+        if runs:
+            reqs += nm_requests(d, runs)
+        prepared.append((case, d, hm, err, other, oerr, fresh, ferr, n, len(reqs) - n))
+    answers = common.batch_driver(reqs) if reqs else []
+    out = []
+    for case, d, hm, err, other, oerr, fresh, ferr, n, k in prepared:
+        ans = answers[n:n + k]
+        if k == 2:
+            ans = ans + ['ok']
+        out.append((nm_judge(case, d, hm, err, other, oerr, fresh, ferr, ans) if k else
+                    nm_judge(case, d, hm, err or 'no-run', None, None, None, None, []), hm))
+    return out
+
+
+def nm_chunk(seed, idx, nbase, tier):
+    rng = random.Random('C04/nested-model/%d/%d' % (seed, idx))
+    ex = Exploration()
+    cases = []
+    for b in range(nbase):
+        base = nm_gen(rng)
+        clean, err = nested.run_guarded(base, 'HierarchicalMachine')
+        if err or clean is None:
+            continue
+        known = sorted(set([e for e, _ in base.events] + [e for _p, n in base.walk() for e, _ts in n['local']])) or [0]
+        k = 0
+        for d, info in nm_variants(base, clean.items, rng, tier == 'thorough'):
+            cont = [rng.choice(known) for _ in range(3)]
+            cls = NM_OTHERS[(idx + b + k) % len(NM_OTHERS)] if (tier == 'thorough' or k % 2 == 0) else None
+            k += 1
+            cases.append({'nm': True, 'desc': d.to_json(), 'cont': cont, 'cls': cls, 'info': info})
+    for i in range(0, len(cases), 60):
+        part = cases[i:i + 60]
+        for case, (fs, hm) in zip(part, nm_eval(part)):
+            ex.evaluations += 1
+            ex.traces_validated += 1 + (1 if case['cls'] else 0)
+            d = nested.NDesc.from_json(case['desc'])
+            ex.nontrivial.add('nm' + nestedcheck.fingerprint(d))
+            info = case['info']
+            for key, val in (('crash_slot', info['slot']), ('class', 'nested-model:HierarchicalMachine'),
+                             ('class', 'nested-model:' + str(case['cls'])), ('handlers', str(info['handlers'])),
+                             ('exc', info['exc']), ('second_fault', str(info['extra'])), ('queued', str(d.queued)),
+                             ('nested_reentrant', str(any(v[0] for v in d.script.values()))),
+                             ('nested_reentrant_with_live_naming_scope', str(bool(hm is not None and hm.scope_live))),
+                             ('nested_reentrant_inside_nested_scope', str(bool(hm is not None and hm.scoped_reentry)))):
+                h = ex.stats.setdefault(key, {})
+                h[val] = h.get(val, 0) + 1
+            if hm is not None:
+                shape = 'single'
+                for v in hm.states_after:
+                    if isinstance(v, list):
+                        shape = 'parallel-in-parallel' if any(isinstance(x, list) for x in v) else \
+                            ('parallel' if shape == 'single' else shape)
+                h = ex.stats.setdefault('nested_configuration_shape', {})
+                h[shape] = h.get(shape, 0) + 1
+                if len(ex.samples) < 1:
+                    ex.samples.append({'stream': 'nested-model', 'crash': info, 'history': d.history,
+                                       'states': hm.states_after[:6], 'trace': [common.show_item(i) for i in hm.items[:40]]})
+            ex.failures += fs
+        if any(f.what.startswith('nested-hang') for f in ex.failures):
+            break
+    return ex
+
+
+def nm_shrink_steps(case):
+    for c in nestedcheck.shrink_steps(case):
+        yield c
+    for i in range(len(case['cont'])):
+        c = copy.deepcopy(case)
+        del c['cont'][i]
+        yield c
+    if case.get('cls'):
+        yield dict(case, cls=None)
+
+
+def nm_fails_like(kind, what):
+    def f(case):
+        return any(x.kind == kind and x.what == what for x in nm_eval([case])[0][0])
+    return f
+
+
+# ---------------------------------------------------------------------------------------------
+# the verified acceptor on the cases of the oracle stream above (hierarchical synchronous setups)
+# ---------------------------------------------------------------------------------------------
+
+def na_to_ndesc(d):
+    """the tree-imposed flat description of the oracle stream as an `NDesc` (segment id of a state = its index)"""
+    nd = nested.NDesc()
+
+    def path(i):
+        p = []
+        while i is not None:
+            p.append(i)
+            i = d.states[i]['parent']
+        return list(reversed(p))
+
+    def trans(t, rel):
+        f = (lambda i: [i]) if rel else path
+        return {'source': f(t['source']), 'dest': None if t['dest'] is None else f(t['dest']),
+                'prepare': list(t['prepare']), 'conds': [tuple(c) for c in t['conds']], 'before': list(t['before']),
+                'after': list(t['after'])}
+
+    def node(i):
+        s = d.states[i]
+        local = []
+        for ev, ts in d.events:
+            l = [trans(t, True) for t in ts if t.get('local') == i]
+            if l:
+                local.append((ev, l))
+        return {'name': i, 'children': [node(c) for c in s['children']],
+                'initial': list(s['children']) if s['parallel'] else ([s['init_child']] if s['children'] else []),
+                'pkey': bool(s['parallel']), 'ignore': s['ignore'], 'on_enter': list(s['on_enter']),
+                'on_exit': list(s['on_exit']), 'local': local, 'final': bool(s['final']), 'on_final': []}
+    nd.roots = [node(i) for i, s in enumerate(d.states) if s['parent'] is None]
+    nd.events = [(ev, l) for ev, l in ((ev, [trans(t, False) for t in ts if t.get('local') is None]) for ev, ts in d.events) if l]
+    nd.prepare_event, nd.before_sc, nd.after_sc = list(d.prepare_event), list(d.before_sc), list(d.after_sc)
+    nd.finalize, nd.on_exception, nd.on_final = list(d.finalize), list(d.on_exception), list(d.on_final)
+    nd.ignore, nd.queued, nd.initial = d.ignore, bool(d.qmode), path(d.initial)
+    return nd
+
+
+def na_monitor_requests(d, setup, items):
+    """one `c04n` request per model: the trace of the oracle stream projected to that model, state values as masks.
+    None when the case is outside the acceptor's vocabulary (callbacks that trigger events across models)."""
+    import ast
+    if any(v[0] for v in d.script.values()):
+        return None
+    nd = na_to_ndesc(d)
+    index = {nested.pname(p): i for i, (p, _n) in enumerate(nd.walk())}
+    probe = anested.NRun7(d, na_cls(setup[1]), False)
+
+    def mask(text):
+        return sum(2 ** index[name] for name in nested.flatten(ast.literal_eval(text)))
+    reqs = []
+    for m in d.models:
+        out, tags, keep = [], set(), False
+        for it in items:
+            if it[0] == 'api':
+                if it[3] == m:
+                    out.append((it[0], it[1], it[2], 0, it[4]))
+                    tags.add(it[2])
+            elif it[0] == 'call':
+                keep = it[3] == m
+                if keep:
+                    out.append(('call', it[1], it[2], 0, it[4], mask(it[5])))
+            elif it[0] == 'done':
+                if keep:
+                    out.append(it)
+            elif it[1] in tags:
+                out.append(it)
+        ncalls = sum(1 for it in out if it[0] == 'api')
+        reqs.append(('c04n', [(ncalls + 2) * 8, 2] + nd.enc_cfg4() + nested.enc_sval(getattr(probe.model_objs[m], 'state'))
+                     + common.enc_items(out)))
+    return reqs
+
+
+_na_oracle = na_oracle
+
+
+def na_oracle_and_monitor(d, setup, clean, X, cid, k, handlers):
+    out = _na_oracle(d, setup, clean, X, cid, k, handlers)
+    if setup[2] and not setup[3]:
+        try:
+            reqs = na_monitor_requests(d, setup, X)
+        except (ValueError, KeyError, SyntaxError) as e:     # a state value that names no registered state
+            return out + [('state-value-not-understood', {'error': repr(e)[:200]})]
+        if reqs:
+            for m, ans in zip(d.models, common.batch_driver(reqs)):
+                if ans != 'ok':
+                    if not ans.startswith('reject'):
+                        raise common.MachineryError('monitor answered %r' % ans[:200])
+                    out.append(('verified-containment-monitor', {'model': m, 'monitor': ans,
+                                                                 'trace': [common.show_item(i) for i in X[:80]]}))
+    return out
+
+
+na_oracle = na_oracle_and_monitor
+
+
+_explore2 = C04.explore
+_replay2 = C04.replay
+_search2 = C04.search
+
+
+def nm_corpus():
+    """regression cases of this stream (corpus/C04/*.json): witnesses of the two repaired re-entrancy defects"""
+    import glob
+    import json
+    import os
+    out = []
+    for path in sorted(glob.glob(os.path.join(common.CORPUS, 'C04', '*.json'))):
+        with open(path) as fh:
+            payload = json.load(fh)
+        if payload.get('case', {}).get('nm'):
+            out.append(payload['case'])
+    return out
+
+
+def _explore_nm(self, tier, seed):
+    ex = _explore2(self, tier, seed)
+    corpus = nm_corpus()
+    for case, (fs, _hm) in zip(corpus, nm_eval(corpus)):
+        ex.evaluations += 1
+        ex.traces_validated += 1
+        ex.failures += fs
+    nch, per = (16, 10) if tier == 'quick' else (32, 16)
+    part_ex = Exploration()
+    for part in runner.parallel(nm_chunk, [(seed, i, per, tier) for i in range(nch)]):
+        part_ex.merge(part)
+    done = set()
+    known = set(k.get('signature') for k in self.known())
+    for f in part_ex.failures:
+        key = (f.kind, f.what)
+        if key in done or (f.kind == 'monitor' and f.signature in known):
+            continue        # a listed finding needs no shrinking: its minimal witness is in proposed_fixes/C04N_1.md
+        done.add(key)
+        try:
+            f.case = runner.shrink(f.case, nm_fails_like(f.kind, f.what), nm_shrink_steps,
+                                   budget=10 if 'hang' in f.what else 200)
+        except common.MachineryError:
+            raise
+        except BaseException:
+            pass
+    ex.merge(part_ex)
+    return ex
+
+
+def _search_nm(self, tier, seed, failures):
+    found = _search2(self, tier, seed, failures)
+    if found:
+        return found
+    for part in runner.parallel(nm_chunk, [(seed + 7919, i, 10, 'thorough') for i in range(32)]):
+        found += [f for f in part.failures if f.kind == 'monitor']
+    for f in found[:1]:
+        f.case = runner.shrink(f.case, nm_fails_like(f.kind, f.what), nm_shrink_steps, budget=200)
+    return found
+
+
+def _replay_nm(self, path):
+    import json
+    with open(path) as fh:
+        payload = json.load(fh)
+    case = payload.get('case')
+    if case and case.get('nm'):
+        d = nested.NDesc.from_json(case['desc'])
+        print('class:', case.get('cls') or 'HierarchicalMachine', ' initial:', nested.pname(d.initial), ' queued:', d.queued,
+              ' history:', d.history, ' continuation:', case['cont'], ' crash:', case.get('info'))
+        (fs, hm), = nm_eval([case])
+        if hm is not None:
+            print('states after each call:', hm.states_after)
+            for i in hm.items:
+                print('   ', common.show_item(i))
+        for f in fs:
+            print('FAIL', f.kind, f.what, json.dumps(f.details, default=str)[:3000])
+        return 1 if fs else 0
+    return _replay2(self, path)
+
+
+C04.explore = _explore_nm
+C04.search = _search_nm
+C04.replay = _replay_nm
